@@ -1,4 +1,5 @@
 import RxModel.Lemmas.Impl
+import RxModel.Lemmas.Nested
 /-!
 # C02 — state confinement: a key lifetime's output depends only on that lifetime's items
 
@@ -142,5 +143,161 @@ theorem C02_confinement (P : Pipe) (h : P.Supported) (t : List (Ev Val)) (ht : W
       ((refLift P.loc).run (t.filter (ofKey k))).flatten.filter (ofKey k) := by
   rw [impl_eq_ref P h t ht]
   exact C02_other_keys P.loc k t _ _ rfl
+
+/-! ## nested pipelines: splitters around inner pipelines, `tee_map` around branches, any depth -/
+
+/-- **impl = keyed reference for nested pipelines** (`Pipe.Nested`, Lemmas/Nested.lean), on every
+clean well-formed trace: any number of keys, any interleaving, sparse and reused slot indices; inner
+keys of groups, windows, segments and sessions are derived and reused by the implementation as the
+code does (`group_by` counter, `roll` ring slots, `(key[0], key)` of split/time_split) -/
+theorem C02_impl_eq_ref_nested (P : Pipe) (h : P.Nested) (t : List (Ev Val)) (ht : WF t) (hc : CleanTr t) :
+    P.mux.run t = (refLift P.loc).run t := impl_eq_ref_nested P h t ht hc
+
+/-- **confinement for nested pipelines**: over any clean well-formed trace, the events a nested
+pipeline emits for key `k` are those the keyed reference semantics emits over `k`'s own events -/
+theorem C02_confinement_nested (P : Pipe) (h : P.Nested) (t : List (Ev Val)) (ht : WF t) (hc : CleanTr t) (k : Key) :
+    (P.mux.run t).flatten.filter (ofKey k) =
+      ((refLift P.loc).run (t.filter (ofKey k))).flatten.filter (ofKey k) := by
+  rw [impl_eq_ref_nested P h t ht hc]
+  exact C02_other_keys P.loc k t _ _ rfl
+
+/-- **inner lifetimes start fresh** (windows of roll, segments of split/time_split, groups): in the
+local meaning of `wrap`, the inner lifetime opened in local slot `j` emits the inner pipeline's
+local meaning on exactly the items delivered between its `opn` and its `cls`, whatever the slot held
+before, and leaves the slot empty -/
+theorem C02_inner_lifetime {α β} (L : LocalOp α β) (j : Nat) (xs : List α) (st : Nat → Option L.σ) :
+    runGroup (cmdStep L) st ([Cmd.opn j] ++ xs.map (Cmd.itm j) ++ [Cmd.cls j]) =
+      (fun i => if i = j then none else st i, L.outL xs) := by
+  have key : ∀ (xs : List α) (st : Nat → Option L.σ) (s : L.σ), st j = some s →
+      runGroup (cmdStep L) st (xs.map (Cmd.itm j) ++ [Cmd.cls j]) =
+        (fun i => if i = j then none else st i, (runRaw L.next L.fin s xs).1.flatten ++ (runRaw L.next L.fin s xs).2) := by
+    intro xs
+    induction xs with
+    | nil =>
+      intro st s hs
+      simp only [List.map_nil, List.nil_append, runGroup, cmdStep, hs, runRaw, List.flatten_nil, List.append_nil]
+      congr 1
+    | cons x xs ih =>
+      intro st s hs
+      simp only [List.map_cons, List.cons_append, runGroup, cmdStep, hs, runRaw, List.flatten_cons, List.append_assoc]
+      rw [ih (upd st j (some (L.next s x).1)) (L.next s x).1 (by simp [upd])]
+      congr 1
+      funext i; by_cases hi : i = j <;> simp [upd, hi]
+  have := key xs (upd st j (some L.init)) L.init (by simp [upd])
+  simp only [List.cons_append, List.nil_append, List.append_assoc, runGroup, cmdStep] at this ⊢
+  rw [this]
+  simp only [List.nil_append, LocalOp.outL, LocalOp.runL]
+  congr 1
+  funext i; by_cases hi : i = j <;> simp [upd, hi]
+
+/-- **the catalogue is nested**: every splitter of rxsci around a nested inner pipeline, and
+`tee_map` around nested branches, is a nested stage -/
+theorem C02_nested_builders :
+    (∀ f inner, inner.Nested → (D.groupBy f inner).Nested) ∧
+    (∀ w s inner, 0 < w → 0 < s → inner.Nested → (D.roll w s inner).Nested) ∧
+    (∀ f inner, inner.Nested → (D.split f inner).Nested) ∧
+    (∀ c inner, inner.Nested → (D.timeSplit c inner).Nested) ∧
+    (∀ mode p bs, p.Nested → bs.Nested → (Stage.tee mode (.cons p bs)).Nested) :=
+  ⟨fun f _ h => ⟨⟨groupBySim f⟩, h⟩, fun w s _ hw hs h => ⟨⟨rollSim w s hs hw⟩, h⟩,
+   fun f _ h => ⟨⟨splitSim f⟩, h⟩, fun c _ h => ⟨⟨timeSplitSim c⟩, h⟩,
+   fun _ _ _ hp hb => ⟨⟨hp, hb⟩, by simp [Pipes.locBranches, LBranches.length]⟩⟩
+
+/-- which primitive stages are clean (never turn an item into an error): everything whose user
+function is total -/
+theorem C02_clean_builders :
+    (∀ f : D.F1, (∀ x, ∃ y, f x = .ok y) → (D.map f).Clean) ∧
+    (∀ p : D.F1, (∀ x, ∃ y, p x = .ok y) → (D.filter p).Clean) ∧
+    (∀ (g : D.F2) seed r term, (∀ a x, ∃ y, g a x = .ok y) → (D.scan g seed r term).Clean) ∧
+    D.first.Clean ∧ D.last.Clean ∧ (∀ n, (D.take n).Clean) ∧ (∀ n, (D.lag n).Clean) ∧
+    (∀ n v, (D.padStart n v).Clean) ∧ (∀ n v, (D.padEnd n v).Clean) ∧ (∀ vs, (D.startWith vs).Clean) ∧
+    D.flatMap.Clean := by
+  refine ⟨?_, ?_, ?_, ?_, ?_, ?_, ?_, ?_, ?_, ?_, ?_⟩
+  · intro f hf
+    refine ⟨fun s x o ho => ?_, fun s o ho => by simp [mapOp] at ho⟩
+    obtain ⟨y, hy⟩ := hf x
+    simp [mapOp, hy] at ho; subst ho; rfl
+  · intro p hp
+    refine ⟨fun s x o ho => ?_, fun s o ho => by simp [filterOp] at ho⟩
+    obtain ⟨y, hy⟩ := hp x
+    simp only [filterOp, hy] at ho
+    split at ho
+    · simp at ho; subst ho; rfl
+    · simp at ho
+  · intro g seed r term hg
+    refine ⟨fun s x o ho => ?_, fun s o ho => ?_⟩
+    · obtain ⟨y, hy⟩ := hg (s.getD seed) x
+      simp only [scanOp, scanNext, hy] at ho
+      split at ho
+      · simp at ho
+      · simp at ho; subst ho; rfl
+    · simp only [scanOp, scanFin] at ho
+      cases term with
+      | none =>
+        simp only at ho
+        split at ho
+        · simp at ho; subst ho; rfl
+        · simp at ho
+      | some tf => simp at ho; subst ho; rfl
+  · refine ⟨fun s x o ho => ?_, fun s o ho => by simp [firstOp] at ho⟩
+    simp only [firstOp] at ho
+    split at ho
+    · simp at ho
+    · simp at ho; subst ho; rfl
+  · refine ⟨fun s x o ho => by simp [lastOp] at ho, fun s o ho => ?_⟩
+    simp only [lastOp] at ho
+    cases s with
+    | none => simp at ho
+    | some v => simp at ho; subst ho; rfl
+  · intro n
+    refine ⟨fun s x o ho => ?_, fun s o ho => by simp [takeOp] at ho⟩
+    simp only [takeOp] at ho
+    split at ho
+    · simp at ho; subst ho; rfl
+    · simp at ho
+  · intro n
+    unfold D.lag
+    by_cases hn : n = 1
+    · simp only [hn, if_true]
+      exact ⟨fun s x o ho => by simp [lag1Op] at ho; subst ho; rfl, fun s o ho => by simp [lag1Op] at ho⟩
+    · simp only [hn, if_false]
+      exact ⟨fun s x o ho => by simp [lagOp] at ho; subst ho; rfl, fun s o ho => by simp [lagOp] at ho⟩
+  · intro n v
+    refine ⟨fun s x o ho => ?_, fun s o ho => by simp [padStartOp] at ho⟩
+    simp only [padStartOp] at ho
+    split at ho
+    · simp at ho; subst ho; rfl
+    · simp only [List.mem_append, List.mem_replicate, List.mem_singleton] at ho
+      rcases ho with ⟨_, rfl⟩ | rfl <;> rfl
+  · intro n v
+    refine ⟨fun s x o ho => by simp [padEndOp] at ho; subst ho; rfl, fun s o ho => ?_⟩
+    simp only [padEndOp] at ho
+    cases s with
+    | none => simp at ho
+    | some l => simp only [List.mem_replicate] at ho; rw [ho.2]; rfl
+  · intro vs
+    refine ⟨fun s x o ho => ?_, fun s o ho => by simp [startWithOp] at ho⟩
+    simp only [startWithOp] at ho
+    split at ho
+    · simp at ho; subst ho; rfl
+    · simp only [List.mem_append, List.mem_map, List.mem_singleton] at ho
+      rcases ho with ⟨_, _, rfl⟩ | rfl <;> rfl
+  · refine ⟨fun s x o ho => ?_, fun s o ho => by simp [flatMapOp] at ho⟩
+    simp only [flatMapOp, List.mem_map] at ho
+    obtain ⟨_, _, rfl⟩ := ho; rfl
+
+/-- non-vacuity: `group_by | roll(3,2) | tee_map(last, count) zip` nested three deep is a nested
+pipeline, and a clean well-formed trace with a reused slot index meets the hypotheses -/
+example : (Pipe.ofList [D.groupBy (fun v => v)
+    (Pipe.ofList [D.roll 3 2 (Pipe.ofList [Stage.tee .zip (.cons (Pipe.ofList [D.last]) (.cons (Pipe.ofList [D.first]) .nil))])])]).Nested := by
+  refine ⟨C02_nested_builders.1 _ _ ⟨C02_nested_builders.2.1 3 2 _ (by omega) (by omega) ⟨?_, trivial, Or.inl trivial⟩, trivial, Or.inl trivial⟩, trivial, Or.inl trivial⟩
+  exact C02_nested_builders.2.2.2.2 _ _ _ ⟨trivial, trivial, Or.inl trivial⟩ ⟨⟨trivial, trivial, Or.inl trivial⟩, trivial⟩
+
+example : WF ([.create [3, 0], .create [1, 0], .next [3, 0] (.int 1), .next [1, 0] (.int 5), .done [3, 0],
+    .create [3, 0], .done [1, 0], .done [3, 0]] : List (Ev Val)) ∧
+    CleanTr ([.create [3, 0], .create [1, 0], .next [3, 0] (.int 1), .next [1, 0] (.int 5), .done [3, 0],
+    .create [3, 0], .done [1, 0], .done [3, 0]] : List (Ev Val)) := by
+  refine ⟨by unfold WF; decide, ?_, ?_⟩
+  · intro e he; simp at he; rcases he with rfl | rfl | rfl | rfl | rfl | rfl | rfl | rfl <;> rfl
+  · intro e he; simp at he; rcases he with rfl | rfl | rfl | rfl | rfl | rfl | rfl | rfl <;> rfl
 
 end Rx
